@@ -87,7 +87,7 @@ def generate(info, out):
             elif l['kind'] == 'vec':
                 src += '    if (p == "%s") { if (op == "size") fillv(x->%s, (size_t)v, (unsigned)v); else *out = x->%s.size(); return true; }\n' % (key, cp, cp)
             elif l['kind'] == 'array':
-                src += '    if (p == "%s") { if (op == "fill") filla(x->%s, (unsigned)v); else *out = x->%s.size(); return true; }\n' % (key, cp, cp)
+                src += '    if (p == "%s") { if (op == "fill") filla(x->%s, (unsigned)v); else if (op == "content") { unsigned long long h = 1469598103934665603ull; const unsigned char * q = reinterpret_cast<const unsigned char *>(x->%s.data()); for (size_t i = 0; i < sizeof(x->%s); i++) h = (h ^ q[i]) * 1099511628211ull; *out = h; } else *out = x->%s.size(); return true; }\n' % (key, cp, cp, cp, cp)
         src += '    return false;\n}\n'
     src += 'static bool op(ObjectHeaderBase * o, const std::string & c, const std::string & oper, const std::string & p, unsigned long long v, unsigned long long * out) {\n'
     for c in classes:
@@ -116,7 +116,8 @@ int main(int argc, char ** argv) {
             std::string p; is >> p;
             ObjectHeaderBase * a = make_at(cls, 0xAA); ObjectHeaderBase * b = make_at(cls, 0x55);
             unsigned long long va = 0, vb = 0;
-            op(a, cls, "get", p, 0, &va); op(b, cls, "get", p, 0, &vb);
+            /* "content": the value of a scalar, a hash over the bytes of an array member */
+            op(a, cls, "content", p, 0, &va); op(b, cls, "content", p, 0, &vb);
             jnum(js, "a", (long long)va, first); jnum(js, "b", (long long)vb, first);
             jnum(js, "a_type", (long long)a->objectType, first);
         }
